@@ -145,7 +145,7 @@ int disasm_8048(
             break;
           case OP_ADDR:
             value = memory->read8(address + 1);
-            snprintf(temp, sizeof(temp), "#0x%02x", ((opcode & 0xe000) >> 5) | value);
+            snprintf(temp, sizeof(temp), "#0x%02x", ((opcode & 0xe0) << 3) | value);
             strcat(instruction, temp);
             byte_count = 2;
             break;
